@@ -96,6 +96,9 @@ TUrl ==
             <<"C19:error", o.res \in {"ok", "err"} =>
                               IF E.kind = "ok" THEN Eff(o, cur) = ""
                               ELSE Eff(o, cur) \in E.admissible>>,
+            \* the real secure-only open function on an amqp:// URL: the decode error if there is one,
+            \* else InsecureUrl - never a resolution or connection error, never a connection
+            <<"C19:insecure", Has(o, "open_err") => (o.res \in {"ok", "err"} => o.open_err = Eff(o, cur))>>,
             <<"C19:params", (o.res = "ok" /\ DecodeDefects(cur) = {})
                                => ParamsOk(Params(cur), e.x, o)>>
           >>)
